@@ -28,6 +28,29 @@ def S(label, gamma, timeout, ids, alph, flags=e1.F_DUMP | e1.F_STATS, maxdepth=N
                 maxdepth=maxdepth, maxstates=maxstates, **kw)
 
 
+
+
+def reload_alphabet(ids):
+    """Hurry-up scenario of one client plus reloads of the service table at any point: the awaited login service is removed,
+    a differently named login service (ghost.svc) is added - possibly into the vacated slot - or the original table returns."""
+    base = alpha.make(ids, data=('H',), ends=('D',), passwords=('x', 'bang'), replies=('OKA', 'MORE'), old_replies=(), malformed=(),
+                      ghost_replies=('OKA', 'MORE'), pbudget=2, dead_probes=False, reannounce=False)
+    def fn(st, w):
+        return base(st, w) + [('RL', 'none.conf'), ('RL', 'ghost.conf'), ('RL', 'orig.conf')]
+    return fn
+
+
+def reload_search(tier):
+    services = [('login.svc', 'login')]
+    rules = rules_for(services)
+    files = {'none.conf': lambda md: e1.conf_text(md, services=[], timeout=0, rules=rules),
+             'ghost.conf': lambda md: e1.conf_text(md, services=[('ghost.svc', 'login')], timeout=0, rules=rules),
+             'orig.conf': lambda md: e1.conf_text(md, services=services, timeout=0, rules=rules)}
+    return dict(label='solo/reloads/login/t0', services=services, rules=rules, timeout=0, ids=[1], alphabet=reload_alphabet([1]), flags=e1.F_DUMP | e1.F_STATS,
+                maxdepth=12 if tier != 'quick' else 8, maxstates=60000 if tier != 'quick' else 6000, keep_refs=True, reload_files=files, merge_check=False)
+
+
+
 def plan_solo(tier, which=('hurry', 'orders')):
     """The standard solo searches.  quick: two closed scenario alphabets on {login, dronecheck} plus the
     single-service tables where the module has no login-type service to fall back on; thorough: all tables."""
@@ -191,6 +214,7 @@ def serial_sweep(run, prefixes, thorough=False):
     import re
     mask = lambda lines, tag: [l.replace(tag, 'TAG') for l in lines]
     base = None
+    base_tag = None
     n_done = 0
     with e1.Server(conf, builddir=b) as srv:
         for n in SWEEP_N:
@@ -216,20 +240,30 @@ def serial_sweep(run, prefixes, thorough=False):
             tag = req[0]['tag']
             good = ('L', '-1 X login.svc %s :OK acctA:7\n-1 X drone.svc %s :OK\n' % (tag, tag))
             cands = [good]
+            stale = []
             if tag_prev:
-                cands.append(('L', '-1 X login.svc %s :OK stale:1\n' % tag_prev))
-                cands.append(('L', '-1 X login.svc %s :NO stale refusal\n' % tag_prev))
+                stale.append(tag_prev)
+            # tags of other instances that are textual prefixes of the live one (1_1 for 1_10..1_1f, 1_10 for 1_100 ...) and the first instance's tag
+            us = tag.find('_')
+            stale += [tag[:k] for k in range(us + 2, len(tag)) if tag[:k] not in stale]
+            if n > 1 and base_tag and base_tag != tag and base_tag not in stale:
+                stale.append(base_tag)
+            for t in stale:
+                cands.append(('L', '-1 X login.svc %s :OK stale:1\n' % t))
+                cands.append(('L', '-1 X login.svc %s :NO stale refusal\n' % t))
             hd, bad, res = srv.expand(hist, cands, e1.F_DUMP)
             n_done += 1
             rec = (res[0].status, mask(res[0].out, tag))
             if base is None:
                 base = rec
+                base_tag = tag
             elif rec != base:
                 if any('C07.'.startswith(p) for p in prefixes): run.violation('C07.serial-sweep', 'the %d-th client announced since start-up gets %r for the conversation that gives the first client %r (tag %s)' % (n, rec, base, tag),
                               {'engine': 'E1-sweep', 'conf': conf, 'n': n}, dedup='sweep07')
-            for r, what in zip(res[1:], ('OK', 'NO')):
+            for k, r in enumerate(res[1:]):
+                what, st_tag = ('OK', 'NO')[k % 2], stale[k // 2]
                 if r.status != 'ok' or r.out:
-                    if any('C04.'.startswith(p) for p in prefixes): run.violation('C04.serial-sweep-stale', 'a %s reply carrying the tag %s of the departed previous instance of id 1 (the live one is %s, n=%d) produced %r (%s)' % (what, tag_prev, tag, n, r.out, r.status),
+                    if any('C04.'.startswith(p) for p in prefixes): run.violation('C04.serial-sweep-stale', 'a %s reply carrying the tag %s, which names another (departed) instance of id 1 (the live one is %s, n=%d), produced %r (%s)' % (what, st_tag, tag, n, r.out, r.status),
                                   {'engine': 'E1-sweep', 'conf': conf, 'n': n}, dedup='sweep04' + what)
     if (base is None or base[0] != 'ok' or not any(l.startswith('R 1 ') for l in base[1])) and not run.violations and not run.capped:
         raise common.HarnessError('serial sweep: the baseline conversation did not end in an R verdict: %r' % (base,))
